@@ -216,6 +216,13 @@ func runC32(c *Ctx) {
 				}
 				for _, b := range []byte{'\r', '\n'} {
 					name := map[byte]string{'\r': "CR", '\n': "LF"}[b]
+					if b == '\r' && san != nil {
+						// the message bytes are shared: the hub encodes a push once and hands the same slice
+						// to every subscriber with the same protocol settings
+						bad := writesIntoParam(san)
+						c.Check("C32.R1", ci, "the SSE sanitiser leaves the shared message bytes untouched (writes only into memory it allocated)", bad == nil,
+							"the same encoded message is delivered to every subscriber of the channel; compacting it in place corrupts what the other connections send"+instrAt(w, bad))
+					}
 					okB := san != nil && removesByte(w, san, b, 0)
 					if b == '\n' && !okB {
 						okB = encoderStripsLF(w) // raw payloads reach the message only through protocol.Raw.MarshalJSON
@@ -356,6 +363,72 @@ func runC32(c *Ctx) {
 		c.CheckAt("C32.R3", "(*centrifuge."+tn+").WriteMany hands the batch over unchanged", w.Pos(wm.Pos()), sent, "messages are framed one by one by the handler loop, in slice order")
 		c.CheckAt("C32.R3", "(*centrifuge."+tn+").Write delegates to WriteMany", w.Pos(wr.Pos()), len(CallsIn(wr, false, w.calleeFn(wm))) == 1, "")
 	}
+}
+
+func instrAt(w *World, in ssa.Instruction) string {
+	if in == nil {
+		return ""
+	}
+	return " (" + w.InstrPos(in) + ")"
+}
+
+// writesIntoParam returns an instruction of fn that writes into the backing array of one of its slice
+// parameters: an append whose destination is (a reslice of) the parameter, or a store through an
+// element address of it. Appends into a make()'d or nil slice are fine.
+func writesIntoParam(fn *ssa.Function) ssa.Instruction {
+	var rootIsParam func(v ssa.Value, seen map[ssa.Value]bool) bool
+	rootIsParam = func(v ssa.Value, seen map[ssa.Value]bool) bool {
+		if v == nil || seen[v] {
+			return false
+		}
+		seen[v] = true
+		switch x := v.(type) {
+		case *ssa.Parameter:
+			return true
+		case *ssa.Slice:
+			return rootIsParam(x.X, seen)
+		case *ssa.Phi:
+			for _, e := range x.Edges {
+				if rootIsParam(e, seen) {
+					return true
+				}
+			}
+		case *ssa.Call:
+			if b, ok := x.Call.Value.(*ssa.Builtin); ok && b.Name() == "append" && len(x.Call.Args) > 0 {
+				return rootIsParam(x.Call.Args[0], seen)
+			}
+		case *ssa.UnOp:
+			if al, ok := x.X.(*ssa.Alloc); ok {
+				for _, r := range *al.Referrers() {
+					if st, ok := r.(*ssa.Store); ok && st.Addr == al && rootIsParam(st.Val, seen) {
+						return true
+					}
+				}
+			}
+		case *ssa.ChangeType:
+			return rootIsParam(x.X, seen)
+		}
+		return false
+	}
+	var bad ssa.Instruction
+	EachInstr(fn, func(in ssa.Instruction) {
+		if bad != nil {
+			return
+		}
+		switch x := in.(type) {
+		case *ssa.Call:
+			if b, ok := x.Call.Value.(*ssa.Builtin); ok && len(x.Call.Args) > 0 && (b.Name() == "append" || b.Name() == "copy") {
+				if rootIsParam(x.Call.Args[0], map[ssa.Value]bool{}) {
+					bad = in
+				}
+			}
+		case *ssa.Store:
+			if ia, ok := x.Addr.(*ssa.IndexAddr); ok && rootIsParam(ia.X, map[ssa.Value]bool{}) {
+				bad = in
+			}
+		}
+	})
+	return bad
 }
 
 // encoderStripsLF: protocol.Raw.MarshalJSON (dependency source, part of the build) removes every LF.
